@@ -301,6 +301,10 @@ where
                     //check if we need to modify the vector in place or if we can just copy the other
                     if self.contains_subset(other) {
                         self.array = other.array.clone(); //may be cheap if borrowed, expensive if owned
+                        if self.sorted && !other.sorted {
+                            //we copied an unsorted array, keep our own ordering guarantee
+                            self.array.to_mut().sort_unstable();
+                        }
                         return;
                     }
                 } else if len < otherlen {
